@@ -19,7 +19,8 @@ META = {
     "required": ["monitor:schema-hugr", "monitor:schema-package", "monitor:schema-extension",
                  "monitor:index-sanity", "monitor:port-address", "feature:holes", "feature:order-link",
                  "feature:order-link-on-partially-connected-node", "feature:static-edge",
-                 "feature:order-link-on-static-input-op", "monitor:schema-selftest"],
+                 "feature:order-link-on-static-input-op", "monitor:schema-selftest", "monitor:static-port",
+                 "feature:call-arity-change"],
     "reach": ["hugr.hugr.base:Hugr._to_serial", "hugr.hugr.base:Hugr._constrain_offset",
               "hugr.ext:Extension._to_serial", "hugr.package:Package._to_serial"],
     "assumptions": [
@@ -146,6 +147,24 @@ def check_hugr_case(ctx, case, stratum, do_schema):
                 ctx.disc(None, "port-address", "edges", missing, extra, stratum=stratum, case=case)
         else:
             ctx.count("port-address-not-applicable")
+    # static edges: from a Const / function node to the port right after the value inputs
+    if stratum in ("program", "order-heavy") and not cbp:
+        from vf.oracles import wire
+
+        ctx.count("monitor:static-port")
+        for (a, so), (b, to) in doc["edges"]:
+            src, tgt = doc["nodes"][a], doc["nodes"][b]
+            if src["op"] in ("Const", "FuncDefn", "FuncDecl") and so == 0:
+                pt = wire.op_ports(tgt)
+                want = wire.n_value(pt, "in")
+                fam = {"Const": "const", "FuncDefn": "func", "FuncDecl": "func"}[src["op"]]
+                k = wire.port_kind(pt, "in", to) if to is not None else None
+                if to != want or not (isinstance(k, tuple) and k[0] == fam):
+                    ctx.disc(None, "static-port-address", [src["op"], tgt["op"]],
+                             f"offset {want} (after the {want} value inputs), kind {fam}",
+                             {"offset": to, "kind": k[0] if isinstance(k, tuple) else k}, stratum=stratum, case=case)
+                if tgt["op"] == "Call" and len(tgt["instantiation"]["input"]) != len(tgt["func_sig"]["body"]["input"]):
+                    ctx.feat("feature:call-arity-change")
     info["nodes"] = len(nodes)
     return info, h
 
@@ -212,7 +231,8 @@ def run(ctx):
         mode = ["program", "program+history", "history", "attr-rich", "order-heavy"][i % 5]
         case = {}
         if mode in ("program", "program+history", "order-heavy"):
-            case["prog"] = gen_program(r, budget=30)
+            force = ("rowpoly-call",) if i % 3 == 0 else ()
+            case["prog"] = gen_program(r, budget=30, kind="module" if force else None, force=force)
         if mode == "program+history":
             case["hist"] = gen_history_on(r, 12, max_steps=15)
         if mode == "order-heavy":
